@@ -28,7 +28,9 @@ REGISTRY = dict(
     note=("Trusted: Coq 8.16.1 kernel (vm_compute, no native_compute), translate/py2coq.py (shape-tuple and option-bool cases added) + specs/shapes.py, harness/c11.py, Python/numpy/torch/gymnasium. "
           "PARTIAL: float32 rounding of unscale_action / clip is not modelled (bounds are theorems over Q; the harness checks action_space.contains on saturated networks); the networks, numpy reshape/squeeze and "
           "torch feature concatenation are tied by correspondence only; determinism, no-mutation, one-hot features and image scaling are checked by the oracle (not theorems, except one-hot by value). "
-          "All C11 theorems are closed under the global context."),
+          "Known finding of C11: box-rank0-observation-rejected (F21: Box(shape=()) observations make predict() raise IndexError in the features extractor; the model rejects such "
+          "spaces and the shape theorems carry `supported sp = true`). Correspondence-only sub-claims: discrete action kinds return valid integers, Dict observations with channel-last "
+          "image keys, DQN's exploration branch on Dict observations. All C11 theorems are closed under the global context."),
     technique="machine-checked proof in Coq (case analysis / list arithmetic over shapes; lra over Q) + regenerated-fragment interface lemmas + differential correspondence on real policies",
 )
 
